@@ -20,10 +20,11 @@ RULE = (
     "(every attempt overwrites), recurring jobs, eager ack|nack with sequences of set_result/set_exception and callbacks, custom "
     "result ids and ttl, store_result on/off; message broker in-memory or Redis with the results bucket broker in-memory or "
     "Redis (brokers 'mem' / 'redis'). Fault: the n-th store_bucket call on the results broker raises (swept over n in the "
-    "thorough tier); on Redis additionally an -ERR reply to SET or a connection reset at a seeded step inside the call. "
+    "thorough tier); on Redis additionally an -ERR reply to SET or a connection reset at a seeded step inside the call; slow "
+    "I/O: the n-th result store of the worker stalls for 20 ms - 2 s (retry back-off 50 ms or 0), no relaxation of the oracle. "
     "Oracle: Job.result == outcome of the latest finished execution (success flag, encoded value or exception text and type "
     "name, started <= finished, ttl); nothing written when disabled; under a store fault every message's final place equals "
-    "the fault-free twin's, no terminal action follows the failed store, the worker finishes its other jobs. non-trivial = a "
+    "the fault-free twin's, no second terminal action follows the failed store, the worker finishes its other jobs. non-trivial = a "
     "result was stored and compared (fault runs: the fault fired); distinct = interleaving digest."
 )
 SHRINK_LISTS = ("jobs",)
@@ -65,9 +66,10 @@ def gen(rng, broker, tier):
         jobs.append(j)
     fault = None
     if rng.random() < 0.5:
-        fault = {"kind": rng.choice(["raise", "raise", "redis-err", "redis-reset"]) if broker == "redis" else "raise",
-                 "nth": rng.randint(1, 6), "offset": rng.randint(0, 12)}
-    return {"jobs": jobs, "tasks_limit": rng.randint(1, 3), "fault": fault,
+        fault = {"kind": rng.choice(["raise", "raise", "redis-err", "redis-reset", "slow"]) if broker == "redis" else
+                 rng.choice(["raise", "raise", "slow"]),
+                 "nth": rng.randint(1, 6), "offset": rng.randint(0, 12), "delay_us": rng.choice([20_000, 200_000, 2_000_000])}
+    return {"jobs": jobs, "tasks_limit": rng.randint(1, 3), "fault": fault, "policy_us": rng.choice([50_000, 50_000, 0]),
             "knobs": {"step_cost": rng.choice([0, 0, 1, "rand"]),
                       "net": {"lat_lo": 50, "lat_hi": rng.choice([300, 3000]), "frag_p": rng.choice([0, 0.2])}}}
 
@@ -106,13 +108,33 @@ async def _main(sim, sc, out):
     jobs = {j["id"]: j for j in sc["jobs"]}
     state = workload.ActorState(world, jobs)
     router = workload.build_router(state, [
-        {"name": j["name"], "queue": "q0", "msg_dep": True, "policy": {"kind": "table", "us": [50_000]}, "converter": j["conv"]}
+        {"name": j["name"], "queue": "q0", "msg_dep": True, "policy": {"kind": "table", "us": [sc.get("policy_us", 50_000)]}, "converter": j["conv"]}
         for j in sc["jobs"]])
     V = out["violations"]
     rec = world.rec
     fault = sc.get("fault")
     fired = {"n": 0}
-    if fault:
+    slow_log: list = []
+    if fault and fault["kind"] == "slow":
+        # slow I/O: the n-th result store of the worker takes `delay_us` longer (stalled bucket broker connection)
+        rb = connw.results_bucket_broker
+        inner = rb.store_bucket
+
+        async def slow_store(id_, payload):
+            ent = {"n": len(slow_log) + 1, "id": id_, "data": (payload.success, payload.data, payload.exception),
+                   "enter": sim.loop.step, "exit": None}
+            slow_log.append(ent)
+            if ent["n"] == fault["nth"]:
+                fired["n"] += 1
+                sim.count("fault:slow-store")
+                await asyncio.sleep(fault["delay_us"] / 1e6)
+            try:
+                return await inner(id_, payload)
+            finally:
+                ent["exit"] = sim.loop.step
+
+        rb.store_bucket = slow_store
+    elif fault:
         if fault["kind"] == "raise":
             rec.fail_plan[("bucket:results:store_bucket", fault["nth"])] = ConnectionError("injected: results store is down")
         else:
@@ -205,7 +227,7 @@ async def _main(sim, sc, out):
             wr = expected_result(j, n, state.behaviour(jid, n))
             if wr[0]:
                 exp = (n,) + wr[1:]
-        if rid in failed_store_ids or (fault and fault["kind"] != "raise" and fired["n"]):
+        if rid in failed_store_ids or (fault and fault["kind"] not in ("raise", "slow") and fired["n"]):
             # relaxation, narrow: the bucket may hold an earlier execution's outcome or nothing; never wrong data
             try:
                 res = await job.result
@@ -239,6 +261,12 @@ async def _main(sim, sc, out):
         compared += 1
         tag = state.behaviour(jid, exp[0]).get("do")
         if (res.success, res.data, res.exception) != exp[1:]:
+            got = (res.success, res.data, res.exception)
+            late = [e for e in slow_log if e["id"] == rid and e["data"] == got]
+            good = [e for e in slow_log if e["id"] == rid and e["data"] == exp[1:]]
+            if late and good and any(a["enter"] < g["enter"] and (a["exit"] or 1 << 60) > (g["exit"] or 0) for a in late for g in good):
+                # the store of an earlier attempt completed after the store of the latest one
+                tag = "store-of-an-earlier-attempt-completed-after-the-latest-attempts-store"
             V.append(violation("wrong-result", f"C13/{b}/wrong-result/{tag}", id=jid, got=(res.success, res.data, res.exception),
                                expected=exp[1:], attempt=exp[0], attempts=len(fin)))
         if not (res.started_when <= res.finished_when):
@@ -259,8 +287,12 @@ async def _main(sim, sc, out):
         mine_all = [x for x in rec.events if x.id == owner and x.node == "w"]
         nxt = min((x.end_seq for x in mine_all if x.op == "consume" and x.outcome == "returned" and x.end_seq > e.end_seq),
                   default=1 << 60)
+        prev = max((x.end_seq for x in mine_all if x.op == "consume" and x.outcome == "returned" and x.end_seq < e.seq), default=0)
+        before = [x for x in mine_all if x.depth == 0 and x.op in ("ack", "nack", "requeue", "reject") and prev < x.seq < e.seq]
         extra = [x for x in mine_all if x.depth == 0 and x.op in ("ack", "nack", "requeue", "reject") and e.end_seq < x.seq < nxt]
-        if extra:
+        # (a store which precedes the disposition - results of retried/recurring executions - may fail; the single
+        # disposition then follows it: only a disposition made *before* the failed store must stay the last one)
+        if before and extra:
             V.append(violation("disposition-after-failed-store", f"C13/{b}/terminal-action-after-failed-store/{extra[0].op}", id=owner))
     out["nontrivial"] = compared > 0 and (not fault or fired["n"] > 0)
     out["states"].append(f"cmp{compared}-f{fired['n']}")
